@@ -619,6 +619,7 @@ func normalise(w *World, e *EntitySpec, c *CertInfo) map[string]string {
 }
 
 func execC12(t *testing.T, plan *Plan) *World {
+	defer noteWorld(plan)()
 	w := Exec(t, plan, &c12Oracle{})
 	if len(w.Viol) > 0 || w.Harness != "" || len(w.Runs) == 0 {
 		return w
